@@ -143,6 +143,12 @@ def inner_type(name: str):  # noqa: ANN201
         from mxlpy.integrators import Scipy
 
         return Scipy
+    if name.startswith("scipy:"):
+        from functools import partial
+
+        from mxlpy.integrators import Scipy
+
+        return partial(Scipy, method=name.split(":", 1)[1])
     if name == "exact":
         return ExactLinear
     raise HarnessError(f"unknown integrator {name}")
